@@ -1076,7 +1076,13 @@ def show_val(v):
 
 
 def dedupe(fails, per_class=3):
-    """keep at most a few failures per (entry point, message head) so that one defect does not drown the report"""
+    """keep at most a few failures per (entry point, message head) so that one defect does not drown the report; data that came
+    from / went to the wrong image first, refusals after"""
+    def rank(f):
+        m = f['msg']
+        return 0 if ('pixels of image' in m or 'changed the stores' in m or 'does not return the pixels' in m or 'is not the image' in m
+                     or 'does not hold' in m or 'does not produce' in m) else 1
+    fails = sorted(fails, key=rank)
     seen = {}
     out = []
     for f in fails:
